@@ -299,3 +299,78 @@ Proof.
       change (inject_Z 1) with 1%Q. ring. }
     rewrite G. fold n. field. exact NZ.
 Qed.
+
+(** * Construction with any optimiser: the optimiser sees the alpha weights only *)
+Lemma w_find_const_map a c (w : weights) :
+  In a (map fst w) -> w_find a (map (fun aw => (fst aw, c)) w) = Some c.
+Proof.
+  induction w as [|[b y] r IH]; cbn [map fst w_find In]; [contradiction|]. intro I.
+  destruct (String.eqb a b) eqn:E; [reflexivity|]. apply IH.
+  destruct I as [I|I]; [apply String.eqb_neq in E; congruence|exact I].
+Qed.
+Lemma w_find_const_list a (c : Q) (l : list string) :
+  In a l -> w_find a (map (fun x => (x, c)) l) = Some c.
+Proof.
+  induction l as [|b r IH]; cbn [map w_find In]; [contradiction|]. intro I.
+  destruct (String.eqb a b) eqn:E; [reflexivity|]. apply IH.
+  destruct I as [I|I]; [apply String.eqb_neq in E; congruence|exact I].
+Qed.
+Lemma w_find_none a (w : weights) : ~ In a (map fst w) -> w_find a w = None.
+Proof.
+  intro N. destruct (w_find a w) as [x|] eqn:F; [|reflexivity].
+  exfalso. apply N. apply w_find_in_keys. eauto.
+Qed.
+Lemma w_find_filter_other a (zero opt : weights) :
+  w_find a zero = None ->
+  w_find a (filter (fun aw => match w_find (fst aw) zero with Some _ => false | None => true end) opt) = w_find a opt.
+Proof.
+  intro Z. induction opt as [|[b y] r IH]; cbn [filter fst]; [reflexivity|].
+  destruct (String.eqb a b) eqn:E.
+  - apply String.eqb_eq in E. subst b. rewrite Z. cbn [w_find]. rewrite String.eqb_refl. reflexivity.
+  - destruct (w_find b zero); cbn [w_find]; rewrite ?E; exact IH.
+Qed.
+Lemma merge_value_any zero opt a x :
+  w_find a opt = Some x -> w_find a (merge_weights zero opt) = Some x.
+Proof.
+  intro F. destruct (in_dec string_dec a (map fst zero)) as [I|N].
+  - rewrite merge_value by exact I. rewrite F. reflexivity.
+  - unfold merge_weights. rewrite w_find_app.
+    rewrite w_find_none by (rewrite map_map; cbn [fst]; exact N).
+    rewrite w_find_filter_other by (apply w_find_none; exact N). exact F.
+Qed.
+
+Lemma optimise_keys o w : map fst (optimise o w) = map fst w.
+Proof. destruct o as [|s]; cbn [optimise]; [reflexivity|]. unfold opt_equal. rewrite map_map. reflexivity. Qed.
+
+Theorem alloc_with_optimiser sizer o held univ alpha_w out a :
+  pcm_call_opt sizer o held univ alpha_w = Ok out ->
+  (In a (map fst (pc_alloc out)) <-> (In a (map fst held) \/ In a univ \/ In a (map fst alpha_w))) /\
+  (In a (map fst alpha_w) ->
+     match o with
+     | OptFixed => w_find a (pc_alloc out) = w_find a alpha_w
+     | OptEqual s => w_find a (pc_alloc out) = Some (s * (1 / inject_Z (Z.of_nat (length alpha_w))))%Q
+     end) /\
+  (~ In a (map fst alpha_w) -> (In a (map fst held) \/ In a univ) -> w_find a (pc_alloc out) = Some 0%Q).
+Proof.
+  intro H.
+  assert (A : pc_alloc out = merge_weights (map (fun a => (a, 0%Q)) (full_assets (map fst held) univ)) (optimise o alpha_w)).
+  { revert H. unfold pcm_call_opt.
+    destruct o as [|s]; destruct alpha_w as [|aw0 awr]; try discriminate;
+      (match goal with |- context [sizer ?W] => destruct (sizer W) as [t|e] end; [|discriminate]);
+      intro X; inversion X; reflexivity. }
+  rewrite A. split; [|split].
+  - rewrite merge_keys, map_map. cbn [fst]. rewrite map_id, optimise_keys.
+    rewrite (proj1 (full_assets_spec (map fst held) univ a)). tauto.
+  - intro I. destruct o as [|s]; cbn [optimise].
+    + unfold opt_fixed. destruct (proj2 (w_find_in_keys a alpha_w) I) as [x F]. rewrite F. apply merge_value_any. exact F.
+    + apply merge_value_any. unfold opt_equal. apply w_find_const_map. exact I.
+  - intros N I. rewrite merge_value.
+    + rewrite (w_find_none a (optimise o alpha_w)) by (rewrite optimise_keys; exact N).
+      rewrite w_find_const_list; [reflexivity|].
+      apply (proj1 (full_assets_spec (map fst held) univ a)). exact I.
+    + rewrite map_map. cbn [fst]. rewrite map_id. apply (proj1 (full_assets_spec (map fst held) univ a)). exact I.
+Qed.
+
+Lemma pcm_call_opt_fixed sizer held univ alpha_w :
+  pcm_call_opt sizer OptFixed held univ alpha_w = pcm_call sizer held univ alpha_w.
+Proof. unfold pcm_call_opt, pcm_call. destruct alpha_w; reflexivity. Qed.
